@@ -8,6 +8,8 @@ import (
 	"go/parser"
 	"go/token"
 	"math"
+	"os"
+	"path/filepath"
 	"sort"
 	"strings"
 
@@ -54,7 +56,7 @@ func countFuncBodies(src string) int {
 
 func topoOfShort(res []diff.FingerprintResult, short string) *topology.FunctionTopology {
 	for _, x := range res {
-		if cli.ShortFunctionName(x.FunctionName) == short {
+		if normShort(cli.ShortFunctionName(x.FunctionName)) == short {
 			if fn := x.GetSSAFunction(); fn != nil {
 				return topology.ExtractTopology(fn)
 			}
@@ -166,15 +168,48 @@ func suiteDiffReport(c *Ctx) error {
 			newSrc += strings.TrimPrefix(sn, "package genpkg\n")
 			plan = append(plan, plannedFn{"Stress", "Stress", "edited"})
 		}
-		fOld, err := writeModule(c.Work, fmt.Sprintf("dr%d_old", pi), "a.go", oldSrc)
+		// one pair in three lives in package directories whose last path element contains a dot and
+		// differs between the sides (store.orig/ -> store/, yaml.v2/ -> yaml.v3/): the short names the
+		// report pairs by must not depend on how the package path is spelt
+		oldRel, newRel := "a.go", "a.go"
+		// movedPackage: the two sides are different packages, so a method's topology (receiver and
+		// parameter types carry the package) legitimately differs: the C19 clauses, which are about a
+		// change of NAME only, are not evaluated for such a pair; the C09 clauses are
+		movedPackage := false
+		switch pi % 3 {
+		case 1:
+			oldRel, newRel = "store.orig/a.go", "store/a.go"
+			movedPackage = true
+			c.Count("pairs_in_differing_dotted_package_directories")
+		case 2:
+			oldRel, newRel = "yaml.v2/a.go", "yaml.v2/a.go"
+			c.Count("pairs_in_one_dotted_package_directory")
+		}
+		os.MkdirAll(filepath.Join(c.Work, fmt.Sprintf("dr%d_old", pi), filepath.Dir(oldRel)), 0o755)
+		os.MkdirAll(filepath.Join(c.Work, fmt.Sprintf("dr%d_new", pi), filepath.Dir(newRel)), 0o755)
+		fOld, err := writeModule(c.Work, fmt.Sprintf("dr%d_old", pi), oldRel, oldSrc)
 		if err != nil {
 			return err
 		}
-		fNew, _ := writeModule(c.Work, fmt.Sprintf("dr%d_new", pi), "a.go", newSrc)
+		fNew, _ := writeModule(c.Work, fmt.Sprintf("dr%d_new", pi), newRel, newSrc)
 		out, err := cli.ComputeDiff(cli.RealFileSystem{}, fOld, fNew)
 		if err != nil {
 			c.Skip("diff_error:" + trunc(err.Error(), 80))
 			continue
+		}
+		// the names the report DISPLAYS keep a piece of a dotted package path ("orig.Fn02" for
+		// genmod/store.orig.Fn02); which functions are paired is what the properties are about, so the
+		// displayed names are reduced to (receiver).name before the clauses are evaluated
+		for k := range out.TopologyMatches {
+			out.TopologyMatches[k].OldFunction = normShort(out.TopologyMatches[k].OldFunction)
+			out.TopologyMatches[k].NewFunction = normShort(out.TopologyMatches[k].NewFunction)
+		}
+		for k := range out.Functions {
+			if parts := strings.SplitN(out.Functions[k].Function, " → ", 2); len(parts) == 2 {
+				out.Functions[k].Function = normShort(parts[0]) + " → " + normShort(parts[1])
+			} else {
+				out.Functions[k].Function = normShort(out.Functions[k].Function)
+			}
 		}
 		c.Res.Evaluations++
 		hasRen, hasAR := false, false
@@ -198,19 +233,19 @@ func suiteDiffReport(c *Ctx) error {
 		newRes, _ := diff.FingerprintSource(fNew, newSrc, ir.DefaultLiteralPolicy)
 		oldShort, newShort := map[string]int{}, map[string]int{}
 		for _, x := range oldRes {
-			oldShort[cli.ShortFunctionName(x.FunctionName)]++
+			oldShort[normShort(cli.ShortFunctionName(x.FunctionName))]++
 		}
 		for _, x := range newRes {
-			newShort[cli.ShortFunctionName(x.FunctionName)]++
+			newShort[normShort(cli.ShortFunctionName(x.FunctionName))]++
 		}
 		// ---- C09 last clause: the zipper's matching behind every name-paired function ----
 		{
 			oldByShort, newByShort := map[string]diff.FingerprintResult{}, map[string]diff.FingerprintResult{}
 			for _, x := range oldRes {
-				oldByShort[cli.ShortFunctionName(x.FunctionName)] = x
+				oldByShort[normShort(cli.ShortFunctionName(x.FunctionName))] = x
 			}
 			for _, x := range newRes {
-				newByShort[cli.ShortFunctionName(x.FunctionName)] = x
+				newByShort[normShort(cli.ShortFunctionName(x.FunctionName))] = x
 			}
 			for _, m := range out.TopologyMatches {
 				o, n := oldByShort[m.OldFunction], newByShort[m.NewFunction]
@@ -321,7 +356,7 @@ func suiteDiffReport(c *Ctx) error {
 		}
 		// ---- C19: pure renames of uniquely shaped functions ----
 		for _, p := range plan {
-			if p.kind != "renamed" {
+			if p.kind != "renamed" || movedPackage {
 				continue
 			}
 			found := false
@@ -448,4 +483,53 @@ func suiteDiffReport(c *Ctx) error {
 		}
 	}
 	return nil
+}
+
+// normShort reduces a displayed function name to (receiver).name: whatever precedes the last dot of
+// the receiver type or of a plain function name is a remnant of the package path.
+func normShort(name string) string {
+	lastSeg := func(w string) string {
+		depth := 0
+		cut := -1
+		for i := 0; i < len(w); i++ {
+			switch w[i] {
+			case '[', '(':
+				depth++
+			case ']', ')':
+				depth--
+			case '.':
+				if depth == 0 {
+					cut = i
+				}
+			}
+		}
+		return w[cut+1:]
+	}
+	if strings.HasPrefix(name, "(") {
+		depth := 0
+		for i := 0; i < len(name); i++ {
+			switch name[i] {
+			case '(':
+				depth++
+			case ')':
+				depth--
+				if depth == 0 {
+					recv := name[1:i]
+					star := ""
+					if strings.HasPrefix(recv, "*") {
+						star, recv = "*", recv[1:]
+					}
+					// keep type arguments, drop the path in front of the type name
+					base := recv
+					if j := strings.IndexByte(recv, '['); j >= 0 {
+						base = recv[:j]
+						return "(" + star + lastSeg(base) + recv[j:] + ")" + name[i+1:]
+					}
+					return "(" + star + lastSeg(base) + ")" + name[i+1:]
+				}
+			}
+		}
+		return name
+	}
+	return lastSeg(name)
 }
